@@ -296,10 +296,23 @@ def gen_shape(rng, depth, hashable=False, allow_callable=True):
         if hashable:
             return gen_shape(rng, 0, True)
         n = rng.randint(0, 3)
-        kids = [(rng.choice(['p', 'q', 'r', 's']), gen_shape(rng, depth - 1)) for _ in range(n)]
-        lit = {key: v[0] for key, v in kids}
-        builders = {key: v[1] for key, v in kids}
-        return lit, lambda t, fill: {key: builders[key](t, fill) for key in lit}
+        kids = []
+        for name in rng.sample(['p', 'q', 'r', 's'], n):
+            # keys are evaluated like values: plain names, T leaves, and T leaves inside hashable containers
+            kk = rng.choice(['name', 'name', 'T', 'tuple-with-T', 'frozenset-with-T', 'nested-tuple-with-T'])
+            if kk == 'name':
+                key, kb = name, (lambda t, fill, name=name: name)
+            elif kk == 'T':
+                key, kb = T['h'], (lambda t, fill: t['h'])
+            elif kk == 'tuple-with-T':
+                key, kb = (T['h'], name), (lambda t, fill, name=name: (t['h'], name))
+            elif kk == 'frozenset-with-T':
+                key, kb = frozenset([T['h'], name]), (lambda t, fill, name=name: frozenset([t['h'], name]))
+            else:
+                key, kb = (name, (T['n'][1], 'x')), (lambda t, fill, name=name: (name, (t['n'][1], 'x')))
+            kids.append((key, kb, gen_shape(rng, depth - 1)))
+        lit = {key: v[0] for key, kb, v in kids}
+        return lit, lambda t, fill: {kb(t, fill): v[1](t, fill) for key, kb, v in kids}
     kids = [gen_shape(rng, depth - 1, hashable) for _ in range(rng.randint(0, 3))]
     if k == 'list' and not hashable:
         lit = [x for x, _ in kids]
